@@ -9,6 +9,7 @@ package client
 
 import (
 	"runtime"
+	"strings"
 	"bufio"
 	"context"
 	"encoding/json"
@@ -75,6 +76,17 @@ func bScenario(log *bufio.Writer, lmu *sync.Mutex, seed int64, scn int) {
 		if healthy.Load() {
 			return echoAll(req), nil
 		}
+		if stall {
+			// the stall scenario's long-time-out callers are never answered: they must come back by their time-out, counted from the call
+			kept := &tikvpb.BatchCommandsRequest{}
+			for i, r := range req.Requests {
+				if g := r.GetGet(); g != nil && strings.HasPrefix(string(g.Key), "noanswer-") {
+					continue
+				}
+				kept.Requests, kept.RequestIds = append(kept.Requests, r), append(kept.RequestIds, req.RequestIds[i])
+			}
+			req = kept
+		}
 		if srnd.Float64() < pDrop {
 			atomic.AddInt64(&drops, 1)
 			return nil, errors.New("verif: stream dropped by the server")
@@ -102,13 +114,22 @@ func bScenario(log *bufio.Writer, lmu *sync.Mutex, seed int64, scn int) {
 		return resp, nil
 	}
 	server.OnBatchCommandsRequest.Store(&handler)
+	limited := false
 	restore := config.UpdateGlobal(func(conf *config.Config) {
 		conf.TiKVClient.MaxBatchSize = uint([]int{128, 8, 2}[rnd.Intn(3)])
 		conf.TiKVClient.GrpcConnectionCount = uint(1 + rnd.Intn(2))
 		conf.TiKVClient.MaxConcurrencyRequestLimit = []int64{config.DefMaxConcurrencyRequestLimit, 4, 16}[rnd.Intn(3)]
 		if stall {
 			conf.TiKVClient.GrpcConnectionCount = 1
+			if scn%40 == 7 {
+				conf.TiKVClient.MaxConcurrencyRequestLimit = config.DefMaxConcurrencyRequestLimit // every other stall scenario has the never-answered callers
+			}
 		}
+		if stallClose {
+			conf.TiKVClient.GrpcConnectionCount = 1
+			conf.TiKVClient.MaxBatchSize = 128 // room in the submission queue for everybody who arrives during the stall
+		}
+		limited = conf.TiKVClient.MaxConcurrencyRequestLimit != config.DefMaxConcurrencyRequestLimit
 	})
 	defer restore()
 	rpc := NewRPCClient()
@@ -181,6 +202,16 @@ func bScenario(log *bufio.Writer, lmu *sync.Mutex, seed int64, scn int) {
 						break
 					}
 					timeout = 200
+					if g%50 == 1 && !limited {
+						// waits for room in the queue until the stalled send ends (2.6 s), is then sent and never answered: its 3 s
+						// run from the call, not from the moment it was queued (with a concurrency limit the lost slots would starve
+						// the healthy phase, so only without one)
+						timeout = 3000
+						key = "noanswer-" + key
+					}
+				}
+				if stallClose {
+					time.Sleep(time.Duration(g) * time.Millisecond) // arrive one by one while the send loop sleeps
 				}
 				cancelAfter := -1
 				if r.Intn(5) == 0 {
